@@ -694,6 +694,11 @@ class Watcher(object):
 
             if process is None:
                 nb_tries += 1
+                if self.max_retry == -1:
+                    # retrying indefinitely must not keep the daemon in
+                    # this loop: the process is spawned again by the next
+                    # check (manage_processes)
+                    return None
                 continue
             else:
                 self.notify_event("spawn", {"process_pid": process.pid,
@@ -988,8 +993,10 @@ class Watcher(object):
         # probably prevented startup so give up
         # (no process at all means that the hooks refused or the spawns
         # failed - unless none was asked for)
-        if (not self.processes and self.numprocesses > 0) or \
-                not self.call_hook('after_start'):
+        # (with max_retry = -1 failed spawns are retried by the next checks)
+        retrying = self.max_retry == -1 and not self.is_stopped()
+        if (not self.processes and self.numprocesses > 0 and
+                not retrying) or not self.call_hook('after_start'):
             logger.debug('Aborting startup')
             # stop streams too since we are bailing on this watcher completely
             yield self._stop(True)
